@@ -148,27 +148,45 @@ def run_case(i):
     wd = os.path.join(chk.scratch, "c%d" % i)
     out = {"i": i, "skip": False, "viol": None, "scope": scope, "n": n, "need": need, "inconclusive": None,
            "events": sum(len(s[1]) for s in streams), "regions": sum(len(s[2]["regions"]) for s in streams),
-           "before_start": sum(1 for s in streams if s[2].get("before_start"))}
+           "before_start": sum(1 for s in streams if s[2].get("before_start")), "fail_windows": 0}
     try:
-        before = {}
-        for tid, evs, info in streams:
-            d = obs.write_stream(wd, "L", 1, tid, obs.thread_meta(tid, 1, "L", cpus=[(0, 0)], extra=MARK),
-                                 [to_tuple(e) for e in evs])
-            before[tid] = open(os.path.join(d, "stream.obs"), "rb").read()
-        os.makedirs(os.path.join(wd, "cfg"), exist_ok=True)
+        def write_all():
+            shutil.rmtree(wd, ignore_errors=True)
+            bef = {}
+            for tid, evs, info in streams:
+                d = obs.write_stream(wd, "L", 1, tid, obs.thread_meta(tid, 1, "L", cpus=[(0, 0)], extra=MARK),
+                                     [to_tuple(e) for e in evs])
+                bef[tid] = open(os.path.join(d, "stream.obs"), "rb").read()
+            os.makedirs(os.path.join(wd, "cfg"), exist_ok=True)
+            return bef
+        if scope == "fail":
+            # every look-back from 4 up to just under half the needed depth: none can
+            # reach the destination, whatever the number of events modulo the ring size
+            ns = list(range(4, min(need // 2, 4 + 48)))
+            if n not in ns:
+                ns.append(n)
+            out["fail_windows"] = len(ns)
+            for nn in ns:
+                write_all()
+                r = emu.run_tool(build, "ovnisort", ["-n", str(nn), wd], timeout=60, env=env)
+                if r.timeout:
+                    out["inconclusive"] = "timeout"; return out
+                if r.sanitizer:
+                    out["viol"] = ("sanitizer:%s:%s" % (core.sanitizer_kind(r.err), core.first_repo_frame(r.err)),
+                                   "sanitizer report in ovnisort", r.brief()); return out
+                if r.rc == 0 and r.sig == 0:
+                    out["viol"] = ("unsortable-but-exit-0", "destination %d events back, look-back %d: ovnisort exited 0"
+                                   % (need, nn), r.brief()); out["n"] = nn; return out
+                if not r.err.strip():
+                    out["viol"] = ("unsortable-silent", "ovnisort failed without saying so", r.brief()); return out
+            return out
+        before = write_all()
         r = emu.run_tool(build, "ovnisort", ["-n", str(n), wd], timeout=60, env=env)
         if r.timeout:
             out["inconclusive"] = "timeout"; return out
         if r.sanitizer:
             out["viol"] = ("sanitizer:%s:%s" % (core.sanitizer_kind(r.err), core.first_repo_frame(r.err)),
                            "sanitizer report in ovnisort", r.brief()); return out
-        if scope == "fail":
-            if r.rc == 0 and r.sig == 0:
-                out["viol"] = ("unsortable-but-exit-0", "destination %d events back, look-back %d: ovnisort exited 0" % (need, n),
-                               r.brief())
-            elif not r.err.strip():
-                out["viol"] = ("unsortable-silent", "ovnisort failed without saying so", r.brief())
-            return out
         if r.rc != 0 or r.sig:
             out["viol"] = ("sort-fails-in-scope", "ovnisort rc=%s sig=%s with destination %d back and look-back %d: %s"
                            % (r.rc, r.sig, need, n, r.err.strip().split("\n")[-1][:200]), r.brief()); return out
@@ -223,7 +241,7 @@ def main(argv):
     cases = list(range(400 if quick else 12000))
     if chk.replay:
         cases = [json.load(open(chk.replay))["replay"]["case"]]
-    n = ok = fail = ev = reg = bs = 0
+    n = ok = fail = ev = reg = bs = fw = 0
     shapes = set()
     for o in core.pmap(run_case, cases, chunksize=2):
         if o.get("skip"):
@@ -231,7 +249,7 @@ def main(argv):
         if o["inconclusive"]:
             chk.note_inconclusive(o["inconclusive"]); continue
         n += 1
-        ev += o["events"]; reg += o["regions"]; bs += o["before_start"]
+        ev += o["events"]; reg += o["regions"]; bs += o["before_start"]; fw += o["fail_windows"]
         ok += 1 if o["scope"] == "ok" else 0
         fail += 1 if o["scope"] == "fail" else 0
         shapes.add((o["scope"], min(o["need"], 50) // 5, o["n"] >= 10 ** 6))
@@ -241,10 +259,10 @@ def main(argv):
            "rule": "traces of 1-3 streams: sorted base of 5-1500 uniquely numbered events (marks, bursts, jumbo bursts, many "
                    "equal clocks) with 1-8 OU[ OU] regions of 0-20 events (sorted or not internally) whose place is up to "
                    "2000 events back (now and then older than the first event of the stream); look-back -n from just above twice the needed depth (ring wraps) to 10^6; in-scope-"
-                   "for-failure cases need more than 2n. distinct_nontrivial = distinct (scope, depth class, default window) "
+                   "for-failure cases need more than 2n and are run with every look-back from 4 to just under half the depth. distinct_nontrivial = distinct (scope, depth class, default window) "
                    "shapes",
            "samples": [{"scope": "ok", "oracle": "decoded result == Python stable sort by clock of the original events"}],
-           "sorted_ok_cases": ok, "must_fail_cases": fail, "events": ev, "regions": reg,
+           "sorted_ok_cases": ok, "must_fail_cases": fail, "must_fail_runs": fw, "events": ev, "regions": reg,
            "streams_with_region_events_older_than_first_event": bs}
     return chk.finish(cov, assumptions=[
         "tie stability relies on glibc qsort being a merge sort; an unstable result would be reported as a finding",
